@@ -108,7 +108,7 @@ def control_family() -> list[dict]:
 
 
 def all_programs() -> list[dict]:
-    return core_family() + extra_family() + control_family()
+    return core_family() + extra_family() + control_family() + synthetic_family()
 
 
 # ----------------------------------------------------------------------------------------------
@@ -160,6 +160,70 @@ def build_workflow(prog: dict):
     wf = Workflow.create(application="verif", name=prog["name"], stages=stages, context=wctx)
     wf.id = "W-" + prog["name"]
     return wf
+
+
+# ----------------------------------------------------------------------------------------------
+# Synthetic before / after children: created at plan time by a registered StageDefinitionBuilder
+# ----------------------------------------------------------------------------------------------
+CURRENT = {"prog": None}
+
+
+def make_child(sd: dict):
+    from stabilize import StageExecution, TaskExecution
+
+    ctx = {"_script": {t["name"]: t for t in sd["tasks"]}}
+    ctx.update(sd.get("ctx") or {})
+    if sd["cof"]:
+        ctx["continuePipelineOnFailure"] = True
+    if not sd["failp"]:
+        ctx["failPipeline"] = False
+    tasks = []
+    for j, td in enumerate(sd["tasks"]):
+        te = TaskExecution.create(name=td["name"], implementing_class=task_class_name(td["name"]),
+                                  stage_start=(j == 0), stage_end=(j == len(sd["tasks"]) - 1))
+        te.id = "TK%03d-%s" % (j, td["name"])
+        tasks.append(te)
+    return StageExecution(ref_id=sd["ref"], type="verif", name=sd["ref"], context=ctx, tasks=tasks)
+
+
+def register_builder(prog: dict) -> None:
+    from stabilize.stages.builder import StageDefinitionBuilder, get_default_factory
+
+    CURRENT["prog"] = prog
+
+    class VerifBuilder(StageDefinitionBuilder):
+        @property
+        def type(self) -> str:
+            return "verif"
+
+        def _kids(self, stage, owner):
+            pr = CURRENT["prog"] or {"stages": []}
+            return [sd for sd in pr["stages"] if sd["parent"] == stage.ref_id and sd["owner"] == owner]
+
+        def before_stages(self, stage, graph) -> None:
+            for sd in self._kids(stage, "BEFORE"):
+                graph.add(make_child(sd))
+
+        def after_stages(self, stage, graph) -> None:
+            for sd in self._kids(stage, "AFTER"):
+                graph.add(make_child(sd))
+
+    get_default_factory().register(VerifBuilder())
+
+
+def synthetic_family() -> list[dict]:
+    fam = []
+    fam.append(P("before1", [S("a"), S("p", ["a"]), S("z", ["p"]), S("p.b1", parent="p", owner="BEFORE")]))
+    fam.append(P("before2", [S("p", tasks=[T("p.1"), T("p.2")]), S("z", ["p"]),
+                             S("p.b1", parent="p", owner="BEFORE"), S("p.b2", parent="p", owner="BEFORE", tasks=[T("p.b2.1"), T("p.b2.2")])]))
+    fam.append(P("after1", [S("p"), S("z", ["p"]), S("p.a1", parent="p", owner="AFTER")]))
+    fam.append(P("beforeafter", [S("a"), S("p", ["a"]), S("x", ["a"]), S("z", ["p", "x"]),
+                                 S("p.b1", parent="p", owner="BEFORE"), S("p.a1", parent="p", owner="AFTER")]))
+    fam.append(P("beforefail", [S("p"), S("z", ["p"]), S("p.b1", parent="p", owner="BEFORE", tasks=[T("p.b1.1", "terminal")])]))
+    fam.append(P("afterfail", [S("p"), S("z", ["p"]), S("p.a1", parent="p", owner="AFTER", tasks=[T("p.a1.1", "terminal")])]))
+    fam.append(P("siblingfail", [S("a"), S("bad", ["a"], tasks=[T("bad.1"), T("bad.2", "terminal")]),
+                                 S("dep", ["a"]), S("dep.b1", parent="dep", owner="BEFORE", tasks=[T("dep.b1.1"), T("dep.b1.2")])]))
+    return fam
 
 
 # ----------------------------------------------------------------------------------------------
